@@ -20,6 +20,7 @@ def run(ctx: Ctx) -> list[Ob]:
     obs += r4r.operator_rule_shapes(ctx, {'DIFFERENTIATION'})
     obs += r5_.r5d(ctx)
     obs += [o for o in r4.layer_contracts(ctx, {'R4b'}) if o.construct.endswith('TorchPolynomialLayer')]
+    obs += r3.r3k(ctx)
     return obs
 
 
@@ -36,8 +37,9 @@ SPEC = PropSpec(
         "TorchPolynomialDifferential is a config key, i.e. survives the folder's re-instantiation ('every order k' under fold=True). R7i: every comprehension over <circuit>.layer_inputs(<layer>) that re-wires a copied layer in this operator is an order-preserving total map (no `if` filter, not concatenated, not sorted / reversed / made a set): product layers and sum weights are positional. R4r (symbolic shape interpretation of the operator rules, nothing executed): each differentiation layer rule, applied to abstract operand layers built by interpreting the symbolic layer constructors on symbolic sizes (every parameterisation: probs / logits, optional log-partition, arity 1..3), composes parameter nodes only with operands of the shapes the nodes were built for, hands the resulting layer parameters of exactly the shape its constructor validates (for all sizes, not only when two sizes coincide) and returns a layer with Ko output units."
         " R5d (exponent ramp, by abstract interpretation with integer-ramp values and slice origins): in TorchPolynomialDifferential.forward, for order 1 and 2 (3 in the thorough tier), every product of a slice of the coefficient axis with an integer ramp pairs the coefficient of x^n with the multiplier n (slice origin == first value of the ramp), one such step per order -- a hoisted arange sliced by the loop counter multiplies the later steps by shifted numbers of the right shape."
         " R5d zero-branch: TorchPolynomialDifferential.forward returns the constant zero only on paths that exclude dp1 > order (degree >= order): the k-th derivative of a degree-k polynomial is k!*a_k. R4b on TorchPolynomialLayer with a degree that may be 0 (differentiate produces constant polynomials whenever order >= degree): forward still returns (F, B, Ko) -- a Horner loop that starts from the leading coefficient and runs zero times loses the batch axis."
+        " R3k: every constructor hyper-parameter of a concrete symbolic layer (everything but its params and *_factory alternatives) is a key of its config and round-trips through it -- Layer.copyref(), the copy every operator makes of a layer it does not transform, rebuilds the layer from config (a constant layer that loses log_space is read as linear by the next operator)."
     ),
     not_decided="the product rule itself and floating-point values (numerical); derivative coefficients only in the step-wise slice * ramp formulation R5d models.",
     run=run,
-    floors={"R4b": 1, "R5d": 2, "R4r": 2, "R7i": 4, "R7b": 1, "R2g": 3, "R8": 6, "R3f": 1},
+    floors={"R3k": 25, "R4b": 1, "R5d": 2, "R4r": 2, "R7i": 4, "R7b": 1, "R2g": 3, "R8": 6, "R3f": 1},
 )
